@@ -8,8 +8,8 @@ PIPE_NOTE = ("Source-level runs execute the REAL go/parser, go/types, go/cfg and
 
 CLAIMS = {
     "C18": dict(
-        text="For every two-package program of the C01 grammar the real pipeline reports the same places with byte-identical messages when the module is relocated (and the tool started at its new root), and the same places "
-             "when the tool is started in a sub-directory of the module - so every cross-package flow found in one layout is found in the others.",
+        text="For every two-package program of the C01 grammar the real pipeline reports the same positions and the same set of message texts when the module is relocated (and the tool started at its new root) and "
+             "when the tool is started in either package's directory - so every cross-package flow found in one layout is found in the others.",
         note="Partial: three layouts, single process (dependency and importer see the same working directory), working directory injected through tokenhelper's captured value; RelToCwd itself is decided under C14. "
              "Different working directories per package, symlinks and sandboxed relative names are outside. " + PIPE_NOTE,
     ),
